@@ -173,8 +173,11 @@ func runCtrl(sci interface{}) {
 	}
 	h := world.NewH(srv, sc.Filter, sc.period(), sc.LogYield)
 	h.NoRelist = sc.PeriodMs <= 0
+	h.ExpectNoOverflow = sc.Bufsiz >= 100 && len(sc.Acts) <= 60
 	h.Start()
+	detsim.SetInvariant(h.Invariant)
 	maxLat := ms(sc.ListLatMs[0] + sc.ListLatMs[1])
+	detsim.HoldTime(true)
 	if !world.WaitClosed(h.Ctrl.Ready(), maxLat+time.Second) {
 		detsim.Fail("not-ready", "controller not ready %v after start although the first list succeeded\n%s", maxLat+time.Second, srv.Summary())
 	}
@@ -182,10 +185,20 @@ func runCtrl(sci interface{}) {
 	if err != nil {
 		detsim.Fail("subscribe-failed", "Subscribe on a running controller: %v", err)
 	}
+	detsim.HoldTime(false)
 	dead := sc.WatchMode != ""
+	healthy := len(sc.Faults) == 0 && sc.WatchMode == ""
 
 	checkMid := func() {
 		detsim.Settle()
+		detsim.HoldTime(true)
+		defer detsim.HoldTime(false)
+		if healthy && !h.WatchOverflow {
+			// (d) behaviourally: with a healthy watch nothing is lost between the
+			// list snapshot and the watch restart, so at quiescence the cache
+			// equals the server without waiting for a relist
+			h.CheckRootEqualsServer("healthy-watch-missed-events")
+		}
 		if detsim.IsClosed(h.Ctrl.Done()) {
 			detsim.Fail("controller-died", "controller shut down although no list failed: Error()=%v\n%s", h.Ctrl.Error(), srv.Summary())
 		}
@@ -227,7 +240,8 @@ func runCtrl(sci interface{}) {
 	srv.F.Stop()
 	detsim.FairMode()
 	T := detsim.Elapsed()
-	detsim.Note("quiesce at %v", T)
+	nl := len(srv.Lists)
+	detsim.Note("quiesce at %v after %d list calls", T, nl)
 	if sc.PeriodMs > 0 {
 		// C03 (b): after at most one further relist the cache equals the server
 		per := sc.period()
@@ -236,7 +250,7 @@ func runCtrl(sci interface{}) {
 		var fresh *world.ListCall
 		for fresh == nil {
 			for _, l := range srv.Lists {
-				if l.Start >= T && l.Done {
+				if l.N > nl && l.Done {
 					fresh = l
 					break
 				}
@@ -267,34 +281,37 @@ func runCtrl(sci interface{}) {
 		if detsim.IsClosed(h.Ctrl.Done()) {
 			detsim.Fail("controller-died", "controller shut down although no list failed: Error()=%v\n%s", h.Ctrl.Error(), srv.Summary())
 		}
-		h.CheckRootEqualsServer("cache-diverged-after-reconnect")
+		if h.WatchOverflow {
+			// more events in flight than the buffers hold: outside C04's premise
+			// (the loss is repaired by the next relist, which C03 checks)
+			detsim.Count("probe:c04-run-outside-premise(overflow)")
+		} else {
+			h.CheckRootEqualsServer("cache-diverged-after-reconnect")
+		}
 		checkResumeVersions(h)
 	}
 	h.CheckTree("")
 	_ = wit
 }
 
-// checkWatchProtocol: C03 (d) - after list k is consumed the watch restarts at
-// list k's resourceVersion.
+// checkWatchProtocol: C03 (d) - every Watch call starts at the version of a
+// completed list or of an event already sent on an earlier session (never at
+// an invented version).  The stronger behavioural half of (d) is checked in
+// checkMid for healthy runs.
 func checkWatchProtocol(h *world.H, sc *Ctrl) {
 	srv := h.Srv
-	var oks []*world.ListCall
+	ok := map[string]bool{}
 	for _, l := range srv.Lists {
 		if l.Done && l.Outcome == "ok" {
-			oks = append(oks, l)
+			ok[strconv.Itoa(l.SnapRV)] = true
 		}
 	}
-	for i := 0; i+1 < len(oks); i++ {
-		l, next := oks[i], oks[i+1]
-		want := strconv.Itoa(l.SnapRV)
-		found := false
-		for _, w := range srv.Watches {
-			if w.At >= l.End && w.At <= next.End && w.RV == want {
-				found = true
-			}
+	for _, w := range srv.Watches {
+		if !ok[w.RV] {
+			detsim.Fail("bad-watch-version", "watch#%d started at resourceVersion %q, which is neither the version of a completed list nor of an event sent on an earlier session\n%s", w.N, w.RV, srv.Summary())
 		}
-		if !found {
-			detsim.Fail("watch-not-reset-to-list-version", "list#%d (resourceVersion %s) was consumed before list#%d completed, but no Watch call at that version followed it\n%s", l.N, want, next.N, srv.Summary())
+		for _, rv := range w.Sent {
+			ok[strconv.Itoa(rv)] = true
 		}
 	}
 }
